@@ -52,6 +52,12 @@ func (a *tusUploadAdapter) DoTransfer(ctx interface{}, t *Transfer, cb ProgressC
 
 	res, err := a.doHTTP(t, req)
 	if err != nil {
+		if res != nil && res.StatusCode == 429 {
+			retLaterErr := errors.NewRetriableLaterError(err, res.Header.Get("Retry-After"))
+			if retLaterErr != nil {
+				return retLaterErr
+			}
+		}
 		return errors.NewRetriableError(err)
 	}
 
@@ -131,6 +137,12 @@ func (a *tusUploadAdapter) DoTransfer(ctx interface{}, t *Transfer, cb ProgressC
 	req = a.apiClient.LogRequest(req, "lfs.data.upload")
 	res, err = a.doHTTP(t, req)
 	if err != nil {
+		if res != nil && res.StatusCode == 429 {
+			retLaterErr := errors.NewRetriableLaterError(err, res.Header.Get("Retry-After"))
+			if retLaterErr != nil {
+				return retLaterErr
+			}
+		}
 		return errors.NewRetriableError(err)
 	}
 
